@@ -54,7 +54,8 @@ def run(chk):
         # the function applied to the handler: a closure returned by the decorator factory, or partial(<helper>, table, ops)
         applied = []  # (body function, env of its parameters, name of the handler parameter)
         for w in [n for n in ast.walk(fn) if isinstance(n, ast.FunctionDef) and n is not fn]:
-            applied.append((w, {}, w.args.args[0].arg))
+            if w.args.args:
+                applied.append((w, {}, w.args.args[0].arg))
         for r in [n for n in ast.walk(fn) if isinstance(n, ast.Return) and isinstance(n.value, ast.Call)]:
             c = r.value
             if U(c.func) in ("partial", "functools.partial") and c.args and isinstance(c.args[0], ast.Name) and not c.keywords:
@@ -76,7 +77,26 @@ def run(chk):
                                 it = it.args[0]
                             if key == n.target.id and val == f"partial({impl}, {n.target.id})" and U(it) == ops_param:
                                 ok = True
-        chk.require("C05.R1", f"{mi.rel}:{fn.lineno}", ok, f"{name} stores partial(handler, op) under each listed op", name, "registration decorator", "every registered op: handler receives the wrong op or is stored under another key")
+        if ok:
+            chk.ok("C05.R1", f"{mi.rel}:{fn.lineno}", f"{name} stores partial(handler, op) under each listed op")
+        else:
+            # a store into a table with another key or another value is a violation; a registration mechanism outside the recognised
+            # forms (callable class, update() of a comprehension, index loops) is undecided
+            wrong = []
+            for w, env, impl in applied:
+                for n in ast.walk(w):
+                    if isinstance(n, ast.For) and isinstance(n.target, ast.Name):
+                        for st in n.body:
+                            if isinstance(st, ast.Assign) and isinstance(st.targets[0], ast.Subscript) and U(st.targets[0].value).isupper() is False and "TABLE" in U(st.targets[0].value).upper():
+                                key, val = U(st.targets[0].slice), U(st.value)
+                                if key == n.target.id and val.startswith("partial(") and val != f"partial({impl}, {n.target.id})":
+                                    wrong.append(val)
+                                elif key != n.target.id and val == f"partial({impl}, {n.target.id})":
+                                    wrong.append(f"[{key}] = {val}")
+            if wrong:
+                chk.bad("C05.R1", f"{mi.rel}:{fn.lineno}", name, "registration decorator", f"{name} stores `{wrong[0][:80]}` (expected table[op] = partial(handler, op))", "every registered op: handler receives the wrong op or is stored under another key")
+            else:
+                chk.unknown("C05.R1", f"{mi.rel}:{fn.lineno}", f"{name}: registration mechanism not in a recognised form (closure / partial(helper, TABLE, ops) with a loop `TABLE[op] = partial(handler, op)`)")
     chk.ok("C05.R1", "registries", f"{len(hs['qbytes'])} QBytes handlers / {n_ops} ops, {len(hs['qbits'])} QBits handlers, {len(hs['qfunc'])} function wrappers extracted")
     recs = handrules.analyse(repo, chk.tier)
     handrules.emit(chk, recs, "C05")
